@@ -516,7 +516,7 @@ class Harness(object):
                  'unk_pwd', 'dup', 'dup_int', 'unk_order', 'cur', 'cur_ctor', 'neg_init', 'unk_get_cash', 'unk_get_mv',
                  'unk_get_equity', 'unk_get_dict', 'early_sub', 'early_wd', 'early_txn', 'early_mark', 'neg_mark',
                  'p_neg_sub', 'p_neg_wd', 'p_over_wd', 'multi_unk_neg', 'lead_psub', 'lead_pwd', 'stale_update', 'dup_named',
-                 'stale_mark']
+                 'stale_mark', 'early_mark_nan', 'neg_quote_update']
 
     BAD_CODES = ['XYZ', 'gbp', 'Eur', 'usd', 'CHF', '', 'US', 'USD ', None]
 
@@ -565,6 +565,25 @@ class Harness(object):
             call, exp = (lambda: b.get_portfolio_as_dict('nope')), KE
         elif kind == 'multi_unk_neg':
             call, exp = (lambda: b.subscribe_funds_to_portfolio('nope', -x)), VE + KE
+        elif kind == 'neg_quote_update':
+            # every held asset is quoted negative (a bad print) when the broker updates at its current time: the very
+            # first re-mark is refused, nothing listed may change; the harness then puts the quotes back
+            held_assets = sorted(set(a_ for p_ in b.portfolios.values() for a_ in p_.pos_handler.positions))
+            if not held_assets:
+                return
+            saved_q = {a_: self.dh.q[a_] for a_ in held_assets}
+            now_ = max([b.current_dt] + [p_.current_dt for p_ in b.portfolios.values()])
+            if now_ != b.current_dt:
+                return
+
+            def call():
+                try:
+                    for a_ in held_assets:
+                        self.dh.q[a_] = (-abs(saved_q[a_][0]) - 0.5, -abs(saved_q[a_][1]) - 0.5)
+                    b.update(now_)
+                finally:
+                    self.dh.q.update(saved_q)
+            self.flags.add('update_with_negative_quotes')
         elif kind == 'stale_update':
             # a broker update to a time earlier than the clock of every portfolio that holds a position: the first
             # re-mark is refused by that portfolio, so nothing listed may change.  (update() assigns the broker's own
@@ -612,7 +631,7 @@ class Harness(object):
             if '1234' not in b.portfolios:
                 return
             call = lambda: b.create_portfolio(1234)
-        elif kind in ('early_sub', 'early_wd', 'early_txn', 'early_mark'):
+        elif kind in ('early_sub', 'early_wd', 'early_txn', 'early_mark', 'early_mark_nan'):
             # earlier than the portfolio's clock as the history implies it (creation, transfers, fills)
             et = self.pclock[pid] - pd.Timedelta(minutes=1 if x < 50 else 1440)
             if int(x * 100) % 2:
@@ -628,7 +647,8 @@ class Harness(object):
                 if not port.pos_handler.positions:
                     return
                 a = next(iter(port.pos_handler.positions))
-                call = lambda: port.update_market_value_of_asset(a, 10.0, et)
+                px = float('nan') if kind == 'early_mark_nan' else 10.0      # (an early mark without a price is early all the same)
+                call = lambda: port.update_market_value_of_asset(a, px, et)
         elif kind == 'neg_mark':
             if not port.pos_handler.positions:
                 return
@@ -1135,7 +1155,8 @@ def make_machine(mode, rec, part):
             self._do(['pfill', p, a, qty])
 
         @precondition(lambda self: self.h is not None and self.h.pids)
-        @rule(kind=st.sampled_from(['early_mark', 'neg_mark', 'stale_mark', 'stale_mark', 'stale_update', 'over_pwd', 'p_over_wd']),
+        @rule(kind=st.sampled_from(['early_mark', 'neg_mark', 'stale_mark', 'stale_mark', 'stale_update', 'over_pwd', 'p_over_wd',
+                                    'early_mark_nan', 'neg_quote_update']),
               p=st.integers(0, 3), x=st.sampled_from([0.01, 1.0, 250.0]))
         def refused_in_between(self, kind, p, x):
             # requests that must be refused and leave no trace, in every mode (the full catalogue is C15's)
